@@ -11,7 +11,8 @@ Import TlsPolicy Wire.
 
 Definition today : tables :=
   {| tb_auth := auth_sets; tb_ctl := ctl_sites; tb_enc := enc_sites; tb_calls := call_keys;
-     tb_lits := msg_lits; tb_writes := clear_writes; tb_flows := marshal_flows; tb_crw := crypto_rw_shape |}.
+     tb_lits := msg_lits; tb_writes := clear_writes; tb_flows := marshal_flows; tb_crw := crypto_rw_shape;
+     tb_sniff := sniff_sites; tb_listeners := listener_calls |}.
 
 (* the sniff with today's translated head byte constant *)
 Definition sniff_today := Sniff.sniff_with GenWire.frp_tls_head_byte.
@@ -233,6 +234,23 @@ Theorem C05_forced_no_session_without_tls : forall T c h,
   w_force c = true -> conn_tls c = false -> ws_up (fst (run T c init h)) = false.
 Proof. intros T c h Hf Ht. exact (rejected_no_session T c h (forced_plain_client_rejected c Hf Ht)). Qed.
 Print Assumptions C05_forced_no_session_without_tls.
+
+(* for EVERY listener kind that HandleListener serves on the network (tcp, tls-mux, kcp, websocket), with
+   either value of the configured flag: the flag handed to the sniff is the configured one (reflective over
+   t5w: the tlsOnly argument is svr.cfg.Transport.TLS.Force itself, under no condition on the listener) *)
+Theorem C05_force_flag_same_on_every_listener : forall configured l,
+  In l sniffing_kinds -> sniff_force today configured l = ForceIs configured.
+Proof. intros configured l. exact (sniff_force_configured today configured l (facts_sniff today C05_today_facts_ok)). Qed.
+Print Assumptions C05_force_flag_same_on_every_listener.
+
+(* ... hence, on every such listener: configured force (or a trusted CA) and a peer without TLS => no session *)
+Theorem C05_forced_no_session_without_tls_any_listener : forall c h l configured,
+  In l sniffing_kinds -> sniff_force today configured l = ForceIs (w_force c) ->
+  configured = true -> conn_tls c = false -> ws_up (fst (run today c init h)) = false.
+Proof.
+  intros c h l configured. exact (forced_no_session_any_listener today c h l configured (facts_sniff today C05_today_facts_ok)).
+Qed.
+Print Assumptions C05_forced_no_session_without_tls_any_listener.
 
 (* quic (client Open(), server HandleQUICListener: no sniff): always under TLS, whatever tls.enable says *)
 Theorem C05_quic_always_tls : forall c, is_quic c = true -> plan c = DialErr \/ conn_tls c = true.
